@@ -189,15 +189,15 @@ impl std::fmt::Display for ExecutedState {
             Fold(FoldResult { lore }) => {
                 writeln!(f, "fold(",)?;
                 for sublore in lore {
-                    writeln!(
-                        f,
-                        "          {} - [{}, {}], [{}, {}]",
-                        sublore.value_pos,
-                        sublore.subtraces_desc[0].begin_pos,
-                        sublore.subtraces_desc[0].subtrace_len,
-                        sublore.subtraces_desc[1].begin_pos,
-                        sublore.subtraces_desc[1].subtrace_len
-                    )?;
+                    // a state from data of a malicious peer can have any number of descriptors
+                    // and this impl is used in error messages
+                    let descs = sublore
+                        .subtraces_desc
+                        .iter()
+                        .map(|desc| format!("[{}, {}]", desc.begin_pos, desc.subtrace_len))
+                        .collect::<Vec<_>>()
+                        .join(", ");
+                    writeln!(f, "          {} - {}", sublore.value_pos, descs)?;
                 }
                 write!(f, "     )")
             }
